@@ -34,6 +34,7 @@ type WaitClose struct {
 }
 
 func (wc *WaitClose) C() chan struct{} {
+	verifYield(VerifSiteWcLoadState)
 	if wcNew == atomic.LoadInt32(&wc.state) {
 		wc.checkInitSlow()
 	}
@@ -43,6 +44,7 @@ func (wc *WaitClose) C() chan struct{} {
 }
 
 func (wc *WaitClose) WaitUtil(timeout time.Duration) bool {
+	verifYield(VerifSiteWcLoadState)
 	if wcNew == atomic.LoadInt32(&wc.state) {
 		wc.checkInitSlow()
 	}
@@ -61,11 +63,15 @@ func (wc *WaitClose) WaitUtil(timeout time.Duration) bool {
 // Close 返回的时候，确保callback()方法已经执行完成
 // 2020-10-01：如果callback!=nil，则只要state != closed，就应该执行一下callback()
 func (wc *WaitClose) Close(callback func() error) error {
+	verifYield(VerifSiteWcLoadState)
 	if wcClosed != atomic.LoadInt32(&wc.state) {
+		verifYield(VerifSiteWcBeforeLock)
 		wc.mutex.Lock()
+		verifYield(VerifSiteWcAfterLock)
 		// 因为有外来的callback方法，所以有可能panic
 		defer func() {
 			wc.mutex.Unlock()
+			verifYield(VerifSiteWcAfterUnlock)
 			if r := recover(); r != nil {
 				fmt.Printf("%v\n", r)
 			}
@@ -92,13 +98,16 @@ func (wc *WaitClose) Close(callback func() error) error {
 }
 
 func (wc *WaitClose) IsClosed() bool {
+	verifYield(VerifSiteWcLoadState)
 	return atomic.LoadInt32(&wc.state) == wcClosed
 }
 
 // 1. 提取一个slow()方法，是为了让checkInit()方法可以inline
 // 2. 进一步了，移除了checkInit()方法，手动inline了
 func (wc *WaitClose) checkInitSlow() {
+	verifYield(VerifSiteWcBeforeLock)
 	wc.mutex.Lock()
+	verifYield(VerifSiteWcAfterLock)
 	{
 		if wcNew == wc.state {
 			wc.closeChan = make(chan struct{})
@@ -106,6 +115,7 @@ func (wc *WaitClose) checkInitSlow() {
 		}
 	}
 	wc.mutex.Unlock()
+	verifYield(VerifSiteWcAfterUnlock)
 }
 
 func (wc *WaitClose) assetCloseChanNotNil() {
